@@ -222,6 +222,30 @@ fn data_number_faults(orig: &[u8], dense: bool) -> Vec<(String, Vec<u8>)> {
         if !(is_win || key.contains("TREE")) {
             continue;
         }
+        // the duration tree replaced by a ladder of 40 "diamonds" (both answers of a node lead, through one more question
+        // each, to the same next node): acyclic, 121 nodes, but 2^40 root-to-leaf paths - anything that walks paths
+        // instead of nodes never finishes
+        if key.starts_with("DURATION_TREE") {
+            let text = String::from_utf8_lossy(bytes).to_string();
+            let qname = text.lines().find(|l| l.starts_with("QS ")).and_then(|l| l.split_whitespace().nth(1)).map(|x| x.to_string());
+            let leaf = text.split_whitespace().find(|t| t.contains("_s2_")).map(|x| x.to_string());
+            if let (Some(q), Some(leaf), Some(tree_at)) = (qname, leaf, text.find("{*}")) {
+                let levels = 40;
+                let mut t = text[..tree_at].to_string();
+                t += "{*}[2]\n{\n";
+                let id = |i: usize| if i == 0 { "0".to_string() } else { format!("-{}", 3 * i) };
+                for i in 0..levels {
+                    let next = if i + 1 == levels { leaf.clone() } else { id(i + 1) };
+                    t += &format!(" {} {} -{} -{}\n", id(i), q, 3 * i + 1, 3 * i + 2);
+                    t += &format!(" -{} {} {} {}\n", 3 * i + 1, q, next, next);
+                    t += &format!(" -{} {} {} {}\n", 3 * i + 2, q, next, next);
+                }
+                t += "}\n";
+                let mut p2 = crate::gen::cond::Parts { head: parts.head.clone(), keys: parts.keys.clone(), blocks: parts.blocks.clone() };
+                p2.blocks[bi].2 = t.into_bytes();
+                out.push((format!("tree block {} replaced by a ladder of {} diamonds", key, levels), crate::gen::cond::assemble(&p2, &order, false)));
+            }
+        }
         // trees: every brace block emptied (all node lines removed, braces kept), and reduced to its first node line
         if key.contains("TREE") {
             let mut at = 0usize;
@@ -469,7 +493,7 @@ pub fn child(args: &[String]) -> i32 {
 
 pub fn run(tier: Tier) -> i32 {
     let rep = Report::new("C18", tier, "fault_enumeration");
-    rep.set_rule("fault enumeration on 6 generated voice files (about 2-4 kB: 2/3 streams, GV on/off, single-leaf and 3-leaf trees, quoted/unquoted leaves) and the bundled voice: singles = truncation (every byte offset on generated files; every section/range boundary +-1 and a 64-point lattice on V0), every header number replaced by each of 17 values (incl. non-ASCII Unicode digits), every header line deleted/duplicated/emptied, every range inverted, every pair of ranges swapped, tree/question/window tokens renamed or removed (every occurrence on generated files), every number inside window rows (and, on generated files, inside tree text) replaced by each of {0, 4e18, 1e12, a 20-digit number, -1} with the ranges rewritten to match, every tree's brace block emptied or cut down to its first node line, every text byte of generated files replaced by each of 9 bytes, NUL/0xFF/partial-UTF-8 bytes in every header section, PDF count words overwritten; doubles (thorough; first generated file in quick) = all pairs of reduced header faults on different lines, reduced header fault x truncation (stride 7), reduced header fault x token fault; each case loaded via the real loader + VoiceSet + Condition::load_model in a child process (RLIMIT_AS 3 GiB, 90 s per case); distinct = distinct fault; non-trivial = faulted bytes differ from the base");
+    rep.set_rule("fault enumeration on 6 generated voice files (about 2-4 kB: 2/3 streams, GV on/off, single-leaf and 3-leaf trees, quoted/unquoted leaves) and the bundled voice: singles = truncation (every byte offset on generated files; every section/range boundary +-1 and a 64-point lattice on V0), every header number replaced by each of 17 values (incl. non-ASCII Unicode digits), every header line deleted/duplicated/emptied, every range inverted, every pair of ranges swapped, tree/question/window tokens renamed or removed (every occurrence on generated files), every number inside window rows (and, on generated files, inside tree text) replaced by each of {0, 4e18, 1e12, a 20-digit number, -1} with the ranges rewritten to match, every tree's brace block emptied or cut down to its first node line, the duration tree replaced by a ladder of 40 diamonds (a DAG with 2^40 paths), every text byte of generated files replaced by each of 9 bytes, NUL/0xFF/partial-UTF-8 bytes in every header section, PDF count words overwritten; doubles (thorough; first generated file in quick) = all pairs of reduced header faults on different lines, reduced header fault x truncation (stride 7), reduced header fault x token fault; each case loaded via the real loader + VoiceSet + Condition::load_model in a child process (RLIMIT_AS 3 GiB, 90 s per case); distinct = distinct fault; non-trivial = faulted bytes differ from the base");
     rep.assume("at most two simultaneous faults; V0's binary PDF payload is only truncated and overwritten at its count words");
     let b = bases();
     let outcomes: Mutex<BTreeMap<String, (u64, String)>> = Mutex::new(BTreeMap::new());
